@@ -10,7 +10,7 @@ from ..model import curves as mcurves
 from ..model import der as mder
 
 ID = "C12"
-LEVEL = "fault_enumeration"
+LEVEL = "exploration"
 RULE = ("each run = one order n (17 curve orders, toy orders, seeded n >= 2, "
         "byte-aligned or not) and 6-12 (r, s) pairs with boundary bias, each "
         "encoded with sigencode_string / _strings / _der and delivered intact "
